@@ -2,13 +2,31 @@
 import numpy as np
 import gen as G
 import emit as E
+import bondops_common as BC
+import orth_common as OC
 
 PROP = 'C01'
-COQ_IMPORTS = ['PT.Base.Scalar']
-FORM = 'see coq(): replay of the local QR steps (form R) where the model is available'
+COQ_IMPORTS = OC.COQ_IMPORTS
+COQ_PREAMBLE = OC.COQ_PREAMBLE
+SHARD = 6
+FORM = ('R (replay of the whole sweep): on the replayed subset (L <= 3, bond dimensions <= 3, MPO with d <= 2; at most %d + 24 charged-bond MPO cases in quick) every '
+        'numpy.linalg.qr call issued during MPS/MPO.orthonormalize is recorded; input tensors, charges and the recorded (argument, Q, R) table are '
+        'shipped as exact rationals and Model/Orthonormalize.v mps_orthonormalize / mpo_orthonormalize is evaluated by vm_compute over Q(i) with the table '
+        '(nearest recorded argument, entry-wise 1e-9*(1+scale)) as oracle; compared inside Coq: qd and every qD exactly, all shapes exactly, every tensor '
+        'entry and the returned factor within 1e-9*(1+scale) in exact rational arithmetic; an oracle lookup miss makes the model fail = mismatch. '
+        'Cases whose recorded table is ambiguous for a nearest-argument lookup are skipped (class suffix /amb). All generated cases go through prop.' % 110)
+TRUSTED = ['hand-written Gallina mirror of MPS.orthonormalize / MPO.orthonormalize and their local QR functions (Model/Orthonormalize.v, on top of Model/BondOps.v block_qr) tied to the code by the replay on every run',
+           'numpy.linalg.qr (LAPACK geqrf/orgqr): contract Q R = B, Q^H Q = I, shapes, real diagonal of R; assumed in the theorems only for the issued calls; measured on every recorded call (1e-12; diagonal exactly real)',
+           'the MPO statements are about the MPS view (pair (s,t) as physical index s*d+t, charge qd[s]-qd[t]); the view itself is validated by the replay of MPO.orthonormalize',
+           'independent numpy re-implementation of the clauses (dense contraction) in harness/props/c01.py (search only)']
+PARTIAL = ('see Properties/C01.v: proved for all inputs = the theorems listed there; validated numerically on every generated input only = '
+           'whatever is named _partial there or kept as a comment, rounding (isometry exact in the theorem, 1e-8 in prop), that the code computes what the model computes.')
+ASSUMPTIONS = ['binary64 values are read as exact rationals; float arithmetic after a primitive (R @ Anext) is compared with tolerance 1e-9*(1+scale)']
+NREPLAY = {'quick': 110, 'thorough': 600, 'search': 0}
+NREPLAY_CHARGED = {'quick': 24, 'thorough': 150, 'search': 0}
 RULE = ('L in 1..5, d in 1..3, bond profiles incl. 1, over-complete and rank-deficient bonds, charge classes '
         '(zero/sorted/unsorted/repeated/large, sector-disjoint giving the zero state), real/complex/int entries, '
-        'mode left/right, class MPS/MPO; non-trivial = L >= 2 and some bond dimension >= 2; distinct by full input digest')
+        'mode left/right, class MPS/MPO, plus an MPO stream with bond charges drawn from the differences qd[s]-qd[t]; non-trivial = L >= 2 and some bond dimension >= 2; distinct by full input digest')
 IMPL_PARALLEL = True
 TOL = 1e-9
 
@@ -22,12 +40,51 @@ def cases(rng, tier):
                     'qclass': rng.choice(G.QCLASSES), 'dtype': rng.choice(['complex', 'complex', 'real', 'int']),
                     'entries': rng.choice(['float', 'int']), 'connected': rng.random() < 0.85,
                     'rankdef': rng.random() < 0.3, 'Dmax': rng.choice([1, 2, 3, 5])})
+    # additional MPO stream with charged bonds (bond charges drawn from the differences qd[s] - qd[t], so that off-diagonal
+    # blocks s != t are populated); appended after the original stream, which is left unchanged
+    for k in range({'quick': 40, 'thorough': 400, 'search': 40}[tier]):
+        out.append({'seed': rng.getrandbits(30), 'cls': 'mpo', 'mode': rng.choice(['left', 'right']), 'L': rng.choice([1, 2, 2, 3, 3, 4]),
+                    'd': rng.choice([2, 2, 3]), 'qclass': 'charged', 'dtype': rng.choice(['complex', 'real']), 'entries': rng.choice(['float', 'int']),
+                    'connected': True, 'rankdef': False, 'Dmax': rng.choice([2, 3]), 'charged': True})
+    # the replayed subset (correspondence inside Coq): small enough for exact rational arithmetic
+    left = NREPLAY[tier]
+    left_c = NREPLAY_CHARGED[tier]
+    for c in out:
+        small = c['L'] <= 3 and c['Dmax'] <= 3 and (c['cls'] == 'mps' or c['d'] <= 2)
+        if small and c.get('charged') and left_c > 0:
+            c['replay'] = True
+            left_c -= 1
+        elif small and not c.get('charged') and left > 0:
+            c['replay'] = True
+            left -= 1
     return out
+
+
+def _charged_mpo(rs, L, d, Dmax, dtype, entries):
+    import pytenet as ptn
+    while True:
+        qd = rs.integers(-1, 2, size=d)
+        if len(set(int(x) for x in qd)) > 1:
+            break
+    if d == 3 and L >= 4:
+        L = 3
+    dims = [1] + [int(rs.integers(1, Dmax + 1)) for _ in range(L - 1)] + [1]
+    diffs = sorted({int(a) - int(b) for a in qd for b in qd})
+    qD = [np.array([int(rs.choice(diffs)) for _ in range(D)], dtype=int) for D in dims]
+    qD[0] = np.array([0])
+    qD[-1] = np.array([int(rs.choice(diffs))]) if L > 1 and rs.random() < 0.5 else np.array([0])
+    op = ptn.MPO(qd, qD, fill='postpone')
+    for i in range(L):
+        mask = ptn.qnumber_outer_sum([op.qd, -op.qd, op.qD[i], -op.qD[i + 1]]) == 0
+        op.A[i] = G.fill_tensor(rs, mask.shape, mask, entries, dtype)
+    return op
 
 
 def build(case):
     rs = np.random.default_rng(case['seed'])
     L, d = case['L'], case['d']
+    if case.get('charged'):
+        return _charged_mpo(rs, L, d, case['Dmax'], case['dtype'], case['entries'])
     if case['cls'] == 'mps':
         return G.rand_mps(rs, L, d, qclass=case['qclass'], Dmax=case['Dmax'], dtype=case['dtype'], entries=case['entries'],
                           connected=case['connected'], rank_deficient=case['rankdef'])
@@ -45,8 +102,11 @@ def impl(case):
     dims0 = list(obj.bond_dims)
     q_first, q_last = obj.qD[0].copy(), obj.qD[-1].copy()
     d = len(obj.qd)
+    rec = BC.Recorder()
+    inp = OC.obj_to_json(obj) if case.get('replay') else None
     try:
-        nrm = obj.orthonormalize(mode=case['mode'])
+        with rec.patch_qr():
+            nrm = obj.orthonormalize(mode=case['mode'])
     except Exception as e:
         return {'error': type(e).__name__, 'detail': str(e)[:200]}
     v1 = dense(obj.A)
@@ -80,6 +140,11 @@ def impl(case):
             if D1[i - 1] > min(pd * D1[i], D0[i - 1]):
                 ok = False
     res['bond_bound_ok'] = ok and D1[0] == 1 and D1[-1] == 1
+    calls = OC.qr_calls_json(rec)
+    res['lapack'] = OC.qr_contract_msgs(calls)
+    res['ncalls'] = len(calls)
+    if inp is not None:
+        res['rec'] = {'inp': inp, 'out': OC.obj_to_json(obj), 'calls': calls}
     return res
 
 
@@ -105,11 +170,45 @@ def prop(case, r):
         msgs.append('block sparsity / list lengths broken: %s' % r['sparsity'])
     if n0 > 1e-12 and not r['qtotal_kept']:
         msgs.append('leading/trailing bond quantum numbers changed for a non-zero object')
+    msgs += r.get('lapack', [])
     return msgs
 
 
+def _replay(case, r):
+    """(eps, ambiguous) for a replayed case, None if the case is not replayed"""
+    if 'error' in r or 'rec' not in r:
+        return None
+    rc = r['rec']
+    scale = max(OC.scale_of(rc['inp']['A'], rc['out']['A'], [c[k] for c in rc['calls'] for k in ('arg', 'Q', 'R')]), abs(r['nrm']))
+    eps = OC.eps_for(scale)
+    amb = OC.lookup_ambiguous([OC.j2t(c['arg']) for c in rc['calls']], [(OC.j2t(c['Q']), OC.j2t(c['R'])) for c in rc['calls']], float(eps))
+    return eps, amb
+
+
 def coq(case, r):
-    return None
+    rp = _replay(case, r)
+    if rp is None or rp[1]:
+        return None
+    eps, _ = rp
+    rc = r['rec']
+    left = E.boolean(case['mode'] == 'left')
+    if case['cls'] == 'mps':
+        return 'check_orth_mps (F:=QcF) %s %s %s %s %s %s' % (left, E.qc(eps), OC.qr_table(rc['calls']), OC.mps_lit(rc['inp']),
+                                                              OC.mps_lit(rc['out']), E.qc(r['nrm']))
+    return 'check_orth_mpo (F:=QcF) %s %s %s %s %s %s' % (left, E.qc(eps), OC.qr_table(rc['calls']), OC.mpo_lit(rc['inp']),
+                                                          OC.mpo_lit(rc['out']), E.qc(r['nrm']))
+
+
+def coq_diag(case, r):
+    rp = _replay(case, r)
+    if rp is None:
+        return 'true'
+    eps, _ = rp
+    rc = r['rec']
+    left = E.boolean(case['mode'] == 'left')
+    if case['cls'] == 'mps':
+        return 'mps_orthonormalize (F:=QcF) (qr_aoracle %s %s) %s %s' % (E.qc(eps), OC.qr_table(rc['calls']), left, OC.mps_lit(rc['inp']))
+    return 'mpo_orthonormalize (F:=QcF) (qr_aoracle %s %s) %s %s' % (E.qc(eps), OC.qr_table(rc['calls']), left, OC.mpo_lit(rc['inp']))
 
 
 def klass(case, r):
@@ -117,7 +216,9 @@ def klass(case, r):
         return 'error'
     z = 'zero' if r['norm0'] < 1e-12 else 'nonzero'
     shrink = 'shrunk' if r['dims1'] != r['dims0'] else 'same-dims'
-    return '%s/%s/L%d/%s/%s/%s' % (case['cls'], case['mode'], min(case['L'], 3), case['qclass'], z, shrink)
+    rp = _replay(case, r)
+    tag = '' if rp is None else ('/replayed-amb' if rp[1] else '/replayed')
+    return '%s/%s/L%d/%s/%s/%s%s' % (case['cls'], case['mode'], min(case['L'], 3), case['qclass'], z, shrink, tag)
 
 
 def nontrivial(case, r):
